@@ -956,8 +956,8 @@ Fixpoint segment_iat (l : list iat_batch) (cf df : file) : R (file * file) :=
       h <- ih_of b ;;                                           (* IATBh.ServiceClassCode *)
       r <- (match ih_scc h with
             | Mixed =>
-                (* createSegmentFileIATBatchHeader copies the SEC code but not the IATIndicator: the new headers are never IATCOR *)
-                r <- split_iat_entries (ib_entries b) (new_iat_batch (mkih Credits false)) (new_iat_batch (mkih Debits false)) ;;
+                (* createSegmentFileIATBatchHeader copies the SEC code and (since 27bda8a6) the IATIndicator *)
+                r <- split_iat_entries (ib_entries b) (new_iat_batch (mkih Credits (ih_cor h))) (new_iat_batch (mkih Debits (ih_cor h))) ;;
                 cf' <- iat_create_and_add (fst r) cf ;;
                 df' <- iat_create_and_add (snd r) df ;;
                 ret (cf', df')
